@@ -114,7 +114,7 @@ def run(ctx):
     rng = ctx.rng
     n_dis = 0
     try:
-        n = 400 if ctx.tier == "quick" else 8000
+        n = 400 if ctx.tier == "quick" else 60000
         for i in range(n):
             db = filt.gen_db(rng, max_programs=7)
             for p, info in db["programs"].items():   # vary sloc
